@@ -122,6 +122,17 @@ package getty
 //@   ensures ghost.sent_err_nil == (result == nil)
 //@   ensures ghost.regrm_sent == (old(ghost.regrm_sent) || isT(msg.Body, message.RegisterRMRequest)) && ghost.regtm_sent == (old(ghost.regtm_sent) || isT(msg.Body, message.RegisterTMRequest))
 
+// C14: a reply finds its caller by the message id, so every request of this client takes its id from the
+// ONE request counter (heartbeats count separately and never own a future)
+//@ func (*GettyRemotingClient).sendAsyncRequestOn
+//@   prop C14 C15 C19
+//@   inline
+//@   requires client != nil && client.gettyRemoting != nil && client.idGenerator != nil
+//@   modifies ghost.sent, ghost.sent_id, ghost.sent_type, ghost.sent_codec, ghost.sent_body, ghost.sent_err_nil, ghost.regrm_sent, ghost.regtm_sent, ghost.sent_session
+//@   at call Inc#1: assert request-ids-come-from-the-clients-request-counter: arg_self == client.idGenerator
+//@   ensures sent-on-the-given-session: ghost.sent == old(ghost.sent) + 1 && ghost.sent_session == session && ghost.sent_body == msg
+//@   ensures frame: wrote_nothing()
+
 //@ func (*GettyRemotingClient).SendAsyncResponse
 //@   prop C15 C14
 //@   requires client != nil && client.gettyRemoting != nil
@@ -240,6 +251,7 @@ package getty
 // unanswered asynchronous request would stay in the table for ever
 //@ func (*GettyRemotingClient).asyncCallback
 //@   prop C14 C15
+//@   spawns syncCallback
 //@   ensures waiter-started: result1 == nil && spawned("syncCallback")
 
 //@ func (*GettyRemoting).sendAsync
@@ -306,6 +318,7 @@ package getty
 // and gets its announcement started (the announcement itself is the literal OnOpen$1 below)
 //@ func (*gettyClientHandler).OnOpen
 //@   prop C19 C14 C15
+//@   spawns OnOpen$1
 //@   requires sessionManager != nil && session != nil
 //@   modifies heap.all, ghost.all
 //@   ensures registered-and-announced: result == nil && haskey(syncmap(sessionManager, "allSessions"), session) && spawned("OnOpen$1")
